@@ -1071,10 +1071,31 @@ func (c *SpecCtx) evalCall(x *ast.CallExpr) *SV {
 		a := c.eval(x.Args[0])
 		t := c.resolveType(x.Args[1])
 		return boolSV(ex.dynTypeIs(ex.valTerm(a.V), t))
+	case "implements":
+		// implements(x, I): x is non-nil and its dynamic type implements interface I (what x.(I) tests)
+		a := c.eval(x.Args[0])
+		t := ex.env.resolve(c.resolveType(x.Args[1]))
+		f := ex.env.d.Func(symSafe("implements "+ex.env.typeKey(t)), SBool, SInt)
+		r := ex.valTerm(a.V)
+		return boolSV(And(Neq(r, IntLit(0)), ex.env.d.Apply(f.Name, ex.dtype(r))))
+	case "held":
+		// held(v): the interface value an atomic.Value holds
+		a := c.eval(x.Args[0])
+		tm := ex.valTerm(a.V)
+		get := ex.env.d.Func("av_get", SRef, tm.Sort)
+		return &SV{V: scalar(ex.env.d.Apply(get.Name, tm)), T: types.NewInterfaceType(nil, nil)}
 	case "recvReady":
 		a := c.eval(x.Args[0])
 		f := ex.env.d.Func("recvReady", SBool, SRef)
 		return boolSV(ex.env.d.Apply(f.Name, ex.valTerm(a.V)))
+	case "sent", "received":
+		// sent(ch) / received(ch): number of sends / completed receives on ch performed by this invocation (ghost)
+		a := c.eval(x.Args[0])
+		key := "chan sent"
+		if id.Name == "received" {
+			key = "chan recvd"
+		}
+		return &SV{V: scalar(Select(ex.heapGet(c.st, key, ArraySort(SRef, SInt)), ex.valTerm(a.V))), T: c.intType()}
 	case "closed":
 		a := c.eval(x.Args[0])
 		return boolSV(Select(ex.heapGet(c.st, "chan closed", ArraySort(SRef, SBool)), ex.valTerm(a.V)))
